@@ -236,6 +236,69 @@ def derive_field_invariants(P):
                 unknown.add(field)
             else:
                 inv[field] = b if field not in inv else min(inv[field], b)
+    # a field that is only ever set from an (unguarded) integer parameter of an internal function inherits the weakest
+    # bound its callers guarantee for that argument: literals, fields with a known invariant, or locals/parameters of the
+    # caller with the lower-bound facts that hold at the call (one level up, then once more)
+    callers = P.callers()
+
+    def arg_bound(h, call, a, depth):
+        a_s = a.strip()
+        if a_s.cv is not None:
+            return a_s.cv
+        if a_s.k == "DeclRefExpr" and a_s.refkind == "local":
+            # a never-reassigned local: look through to its defining expression (no dataflow needed)
+            from ..canon import Canon
+            sd = Canon(h).single_def(a_s.refdecl)
+            if sd is not None:
+                a_s = sd.strip()
+                if a_s.cv is not None:
+                    return a_s.cv
+        if a_s.k == "MemberExpr" and inv.get(a_s.member) is not None and a_s.member not in unknown:
+            return inv[a_s.member]
+        if h.cfg is None or call.id not in h.cfg.pos:
+            return None
+        tr2 = BoundTracker(h, {call.id: (a, 0)}, {k: v for k, v in inv.items() if k not in unknown})
+        try:
+            Engine(h, tr2, 50000).run()
+        except TooManyStates:
+            return None
+        bs = tr2.results.get(call.id)
+        if bs and None not in bs:
+            return min(bs)
+        if depth < 2 and a_s.k == "DeclRefExpr" and a_s.refkind == "param":
+            return param_bound(h, h.param_index(a_s.refname), depth + 1)
+        return None
+
+    def param_bound(g, pi, depth=0):
+        if pi is None:
+            return None
+        bs = []
+        for (h, call) in callers.get(g.key(), []):
+            if pi >= len(call.args()):
+                return None
+            b = arg_bound(h, call, call.args()[pi], depth)
+            if b is None:
+                return None
+            bs.append(b)
+        return min(bs) if bs else None
+    for f in P.all_functions():
+        if f.body is None:
+            continue
+        for n in f.walk():
+            if n.k == "BinaryOperator" and n.op == "=" and n.kids[0].strip().k == "MemberExpr" and \
+                    n.kids[0].strip().ctype in INTS and n.kids[1].strip().k == "DeclRefExpr" and \
+                    n.kids[1].strip().refkind == "param":
+                fld = n.kids[0].strip().member
+                if fld in unknown or inv.get(fld) is None:
+                    # every store of this field must be such a parameter store for the result to be meaningful
+                    stores = [m for g in P.all_functions() if g.body is not None for m in g.walk()
+                              if m.k == "BinaryOperator" and m.op == "=" and m.kids[0].strip().k == "MemberExpr" and
+                              m.kids[0].strip().member == fld]
+                    if all(m.kids[1].strip().k == "DeclRefExpr" and m.kids[1].strip().refkind == "param" for m in stores):
+                        b = param_bound(f, f.param_index(n.kids[1].strip().refname))
+                        if b is not None:
+                            inv[fld] = b if inv.get(fld) is None else min(inv[fld], b)
+                            unknown.discard(fld)
     # ++/-- or compound updates of a field make the bound unknown unless only incremented
     for f in P.all_functions():
         for n in f.walk():
